@@ -296,7 +296,40 @@ func (q *Seq) Exec(op SOp) bool {
 			return true
 		}
 		q.Compare(r, what+fmt.Sprintf("->R#%d", sym), m.Unregister(idx, req, sym), nil)
+	case "chunk":
+		// a further chunk of one of this session's progressive call invocations
+		var open []*MCall
+		for _, k := range m.Calls {
+			if !k.Done && k.Caller == idx && k.InProg && k.Callee >= 0 {
+				open = append(open, k)
+			}
+		}
+		if len(open) == 0 {
+			return false
+		}
+		k := open[op.K%len(open)]
+		opts := wamp.Dict{}
+		if op.Prog {
+			opts["progress"] = true
+		}
+		msg := &wamp.Call{Request: k.Req, Options: opts, Procedure: wamp.URI(k.Proc), Arguments: op.Args, ArgumentsKw: op.Kw}
+		if !q.sendGated(s, idx, r, what, msg) {
+			return true
+		}
+		c.Probe("progressive_call_chunk")
+		exp, _ := m.Call(idx, k.Req, opts, k.Proc, modelArgs, modelKw)
+		q.Compare(r, what+fmt.Sprintf("->req %d", k.Req), exp, nil)
 	case "call":
+		if p, _ := op.Opts["progress"].(bool); p && !m.has(idx, "caller.progressive_call_invocations") {
+			// using the feature unannounced is a protocol violation (C04's subject), not a call
+			o := wamp.Dict{}
+			for k, v := range op.Opts {
+				if k != "progress" {
+					o[k] = v
+				}
+			}
+			op.Opts = o
+		}
 		msg := &wamp.Call{Request: req, Options: op.Opts, Procedure: wamp.URI(op.URI), Arguments: op.Args, ArgumentsKw: op.Kw}
 		if !q.sendGated(s, idx, r, what, msg) {
 			return true
@@ -312,6 +345,11 @@ func (q *Seq) Exec(op SOp) bool {
 		m.ArmTimeout(call, nowMs)
 	case "yield", "inverr":
 		sym, actual := q.pickInv(r, idx, op)
+		if k := m.callByInv(idx, sym); k != nil && k.InProg && !(op.Kind == "yield" && op.Prog) {
+			// a final answer while the caller is still sending chunks: what the following
+			// chunks then mean is not specified; a callee under test does not do it
+			return false
+		}
 		var msg wamp.Message
 		opts := wamp.Dict{}
 		if op.Prog && op.Kind == "yield" {
